@@ -51,7 +51,9 @@ def content(cls, size, filler):
 
 CLASSES = ["zero", "ff", "cycle", "lf", "crlf", "mixed", "badutf8", "trailing", "markup", "nonl"]
 
-NAMES = [b"dump.bz2", b"x.xz", b"page.html.br", b"plain.txt", b"sp ace.txt", b"a&b?c#d.txt", b"%41.txt", b"\xae.txt", b"noext", b"x.html", b"x.bin", b"x.gif", b"x.txt.gz", b"UP.TXT", b"x.tar.gz", b"x.tgz", b"dot.in.name.txt", b"x.txt.bz2", b"x.unknownext", b"x.pdf.Z"]
+NAMES = [b"dump.bz2", b"x.xz", b"page.html.br", b"plain.txt", b"sp ace.txt", b"a&b?c#d.txt", b"%41.txt", b"\xae.txt", b"noext", b"x.html", b"x.bin", b"x.gif", b"x.txt.gz", b"UP.TXT", b"x.tar.gz", b"x.tgz", b"dot.in.name.txt", b"x.txt.bz2", b"x.unknownext", b"x.pdf.Z",
+         # names that look like URLs with a scheme, a query or a fragment to anything that parses them as one
+         b"data:logo.gif", b"Data:report.html", b"x:.html", b"re:faq#1.html", b"http:page.html", b"what?.gif", b"semi;colon.html", b"mailto:me@x.txt"]
 
 PROTOS = ["gopher", "gopherp", "http", "http_head", "wap", "gemini", "spartan", "sgopher", "sgopherp", "https"]
 
